@@ -146,6 +146,24 @@ def run(ctx):
                  max_examples=ctx.scale(110, 700), name='query_mixed', phases=NOSHRINK)
 
 
+    # ---- level 2, histories: the same query code stacked on its own result, each layer with its own outer values ------
+    def t_l2_chain(expr, envs, lay):
+        if expr is None:
+            ctx.count('generator_discarded')
+            return
+        layout = G.make_layout(envs[0], lay)
+        for form in K.CHAIN_FORMS:
+            case = {'level': 2, 'kind': 'chain', 'expr': expr, 'form': form, 'envs': envs, 'env': envs[0],
+                    'scopes': layout['scopes'], 'decoys': layout['decoys']}
+            res = K.judge_chain(case, dbE)
+            _account(ctx, case, res, [2, form, 'chain', len(envs), expr], want_sample=(form == 'chain_gen'), dbE=dbE)
+            if res['status'] == 'inconclusive':
+                break
+
+    ctx.run_test(t_l2_chain, dict(expr=G.chain_queries(), envs=st.lists(G.environments(), min_size=1, max_size=5), lay=G.BIG),
+                 max_examples=ctx.scale(60, 500), name='query_chain', phases=NOSHRINK)
+
+
 def replay(case):
     from vlib import c04_core as K
     res = K.judge(case)
